@@ -170,6 +170,9 @@ class Choices:
         Returns:
             Simplified list of infinity paths.
         """
+        # the empty sequence matches every choice vector: nothing else matters
+        if () in sequences:
+            return {()}
         while True:
             len_before = len(sequences)
             while Choices.reduce(domain, sequences):
